@@ -4,11 +4,14 @@ import AvoVerif.Props.C13Tables
 #print axioms Avo.Data.data_disjoint
 #print axioms Avo.Data.data_image
 #print axioms Avo.Data.int_text_roundtrip
-#print axioms Avo.Data.string_text_roundtrip
+#print axioms Avo.Data.string_text_roundtrip_partial
+#print axioms Avo.Data.string_text_roundtrip_ascii_mode
+#print axioms Avo.Data.string_text_fails_at_middle_dot
 #print axioms Avo.Data.data_lines
 #print axioms Avo.Data.data_end_to_end
 #print axioms Avo.Data.nonmonotone_rejected_witness
 #print axioms Avo.Data.f32_text_fails_at_F11
+#print axioms Avo.Data.f32_exact_text_ok_at_F11
 #print axioms Avo.Quote.unquote_quote
 #print axioms Avo.NumText.parseIntLit_intDecPlus
 #print axioms Avo.NumText.parseIntLit_hexPad
